@@ -184,6 +184,11 @@ class Inst(PE.Obj):
         return self.world.class_attr(self.key, name, bind=self)
 
     def set_attr(self, ev, name, value):
+        setter = self.world.find_setter(self.key, name)
+        if setter is not None:
+            kk, b = setter
+            ev.run_function(b, [self, value])
+            return
         self.fields[name] = value
 
     def __repr__(self):
@@ -230,7 +235,7 @@ _MISSING = object()
 class World:
     """the names the three modules see, with every class and function interpreted on demand"""
 
-    def __init__(self, m, files=None):
+    def __init__(self, m, files=None, mods=None):
         self.m = m
         self.files = dict(files or {})       # virtual file system: path -> text
         self.depth = 0
@@ -238,6 +243,7 @@ class World:
         self.exited = False
         self.ev = PE.Evaluator({}, max_steps=3000000)
         g = self.ev.g
+        MODS = tuple(mods) if mods else globals()["MODS"]
         for mod in MODS:
             if mod not in m.modfile:
                 raise PE.Unsupported("module %s vanished" % mod)
@@ -431,8 +437,6 @@ class World:
             if bind is None:
                 raise PE.Unsupported("property %s read on a class" % b.name)
             return run(b, [bind], None, env0(bind))
-        if any(d.endswith(".setter") for d in deco):
-            raise PE.Unsupported("property setter %s" % b.name)
         if bind is not None:
             return lambda *a, **k: run(b, [bind] + list(a), k, env0(bind))
         return lambda *a, **k: run(b, list(a), k, env0(a[0] if a and isinstance(a[0], Inst) else None))
@@ -449,7 +453,7 @@ class World:
             if cd is None:
                 continue
             for b in cd.body:
-                if isinstance(b, ast.FunctionDef) and b.name == name:
+                if isinstance(b, ast.FunctionDef) and b.name == name and not any(A.text(d).endswith(".setter") for d in b.decorator_list):
                     return self._method(kk, b, bind, key)
                 if isinstance(b, (ast.Assign, ast.AnnAssign)):
                     tg = b.targets if isinstance(b, ast.Assign) else [b.target]
@@ -463,6 +467,25 @@ class World:
         if default is not _MISSING:
             return default
         raise PE.Unsupported("attribute %s" % name)
+
+    def find_setter(self, key, name):
+        m = self.m
+        cache = self.__dict__.setdefault("_setters", {})
+        if (key, name) in cache:
+            return cache[(key, name)]
+        found = None
+        for kk in m.classes[key]["mro"]:
+            cd = m.classdef(kk) if kk in m.classes else None
+            if cd is None:
+                continue
+            for b in cd.body:
+                if isinstance(b, ast.FunctionDef) and b.name == name and any(A.text(d) == name + ".setter" for d in b.decorator_list):
+                    found = (kk, b)
+                    break
+            if found:
+                break
+        cache[(key, name)] = found
+        return found
 
     def call(self, modname, fname, *args, **kw):
         return self.funcs[(modname, fname)](*args, **kw)
